@@ -622,6 +622,14 @@ def gen_verifier(repo):
             mv = re.search(r"_verify_ne_predicate", body)
             mg = re.search(r"let\s+m_hat\s*=\s*primary_proof\s*\.\s*eq_proof\s*\.\s*m\s*\.\s*get\s*\(\s*&\s*ne_proof\s*\.\s*predicate\s*\.\s*attr_name\s*\)", body, re.S)
             link = bool(mi and mv and mg and mg.start() < mi.start() < mv.start())
+    hid = False
+    if f:
+        ml2 = re.search(r"\bfor\s+ne_proof\s+in\s+primary_proof\s*\.\s*ne_proofs\s*\.\s*iter\s*\(\s*\)\s*\{(.*)", f[1], re.S)
+        if ml2:
+            mh = re.search(r"\bif\s+sub_proof_request\s*\.\s*revealed_attrs\s*\.\s*contains\s*\(\s*&\s*ne_proof\s*\.\s*predicate\s*\.\s*attr_name\s*\)\s*\{\s*return\s+Err", ml2.group(1), re.S)
+            mv2 = re.search(r"_verify_ne_predicate", ml2.group(1))
+            hid = bool(mh and mv2 and mh.start() < mv2.start())
+    out.append("/-- `_verify_primary_proof`: inside the loop over the predicate proofs, a predicate whose attribute the sub-proof reveals\n    (`sub_proof_request.revealed_attrs.contains(&ne_proof.predicate.attr_name)`) is rejected before `_verify_ne_predicate` -/\ndef predicateOnRevealedRejected : Bool := %s\n\n" % ("true" if hid else "false"))
     out.append("/-- `_verify_primary_proof`: inside `for ne_proof in primary_proof.ne_proofs.iter()`, `m_hat = eq_proof.m.get(&ne_proof.predicate.attr_name)`\n    is compared with `ne_proof.mj` (`!=` rejects) before `_verify_ne_predicate` is called for that very proof -/\ndef mjLinkInLoop : Bool := %s\n\n" % ("true" if link else "false"))
     # ---- holder: interval of e
     f = find_fn(prv, "_check_signature_correctness_proof")
